@@ -59,6 +59,7 @@ var phases = []phaseDef{
 	{"panic-safety", func(env *vh.Env, rep *vh.Report, c *phaseCtx) { panicSafety(env, rep) }},
 	{"callbacks", func(env *vh.Env, rep *vh.Report, c *phaseCtx) { callbackReentrancy(env, rep) }},
 	{"result-aliasing", func(env *vh.Env, rep *vh.Report, c *phaseCtx) { resultAliasing(env, rep) }},
+	{"traversal-hooks", func(env *vh.Env, rep *vh.Report, c *phaseCtx) { traversalHooks(env, rep, c.facts) }},
 	{"sequential", func(env *vh.Env, rep *vh.Report, c *phaseCtx) { sequential(env, rep, c.rng.Fork(), c.fams()) }},
 	{"lock-step", func(env *vh.Env, rep *vh.Report, c *phaseCtx) { lockstep(env, rep, c.fams()) }},
 	{"oracle-lock-step", func(env *vh.Env, rep *vh.Report, c *phaseCtx) { oracleLockstep(env, rep, c.facts) }},
@@ -91,7 +92,7 @@ func runPhaseWorker(name string, env *vh.Env, rep *vh.Report) {
 		return fams
 	}
 	switch name {
-	case "sweep", "queues", "oracle-lock-step":
+	case "sweep", "queues", "oracle-lock-step", "traversal-hooks":
 		ctx.facts = loadFacts(env, rep)
 	}
 	// a worker that stalls is ended by its own deadline, with what it has
